@@ -29,7 +29,17 @@
    spans of a segment are kept in the segment (`s_free`, slice counts); the span queues of a thread
    (tld->spans) link exactly the free spans of the non-abandoned segments it owns (mi_segment_abandon
    unlinks them all, mi_segment_reclaim links them all), so `cached_spans` is that view.  Queue order,
-   numa node, reclaim heuristics, which bit the arena claim finds, the OS: oracle arguments. *)
+   numa node, reclaim heuristics, which bit the arena claim finds, the OS: oracle arguments.
+
+   Slices.  A page records its slice count (`p_slices`); `s_free` is the multiset of the slice counts of the
+   free spans.  The positions of the spans inside the segment are not modelled: which free spans are
+   neighbours (mi_segment_span_free_coalesce) is a choice, made explicit by the operation `OCoalesce`.
+   Every operation but `OSegmentAlloc` conserves, per segment, the sum of the page slices and the free
+   slices (a page that is freed -- by _mi_segment_page_free, mi_segment_check_free, mi_segment_reclaim,
+   the abandon paths -- adds its slices to `s_free` as one more entry).  With these conventions the
+   projection (arenas, heaps, segments with memid / owner / visits, pages with heap / tag / live / slices,
+   free-span sizes) of the real allocator is replayed op by op (harness/t_bind.c, ocaml/mode_bind.ml
+   mode bind-trace). *)
 From Coq Require Import NArith ZArith List Bool.
 From MiV Require Import Gen.Consts Gen.OsConsts Model.Arith.
 Import ListNotations.
@@ -299,7 +309,8 @@ Definition arena_alloc (arenas : list arena) (opts : alloc_opts) (size alignment
 Record page : Type := mkPage {
   p_heap : option heap;   (* mi_page_heap(page); None = abandoned page *)
   p_tag : N;              (* page->heap_tag *)
-  p_used : bool           (* page has live blocks (not mi_page_all_free after collecting) *)
+  p_used : bool;          (* page has live blocks (not mi_page_all_free after collecting) *)
+  p_slices : N            (* page->slice_count *)
 }.
 
 Record segment : Type := mkSeg {
@@ -350,6 +361,11 @@ Definition set_owner (s : segment) (owner visits : N) : segment :=
   mkSeg (s_id s) (s_memid s) (s_addr s) (s_size s) owner visits (s_huge s) (s_pages s) (s_free s).
 
 Definition page_abandoned (p : page) : bool := match p_heap p with None => true | Some _ => false end.
+
+(* the slice counts of the all-free pages among those selected by `sel`: what mi_segment_page_clear
+   gives back to the free spans when these pages are freed *)
+Definition dead_slices (sel : page -> bool) (pages : list page) : list N :=
+  map p_slices (filter (fun p => sel p && negb (p_used p)) pages).
 
 (* what _mi_segment_page_free / _mi_segment_page_abandon do after changing a page of an owned segment:
    used == 0: mi_segment_free;  used == abandoned: mi_segment_abandon (thread_id := 0,
@@ -412,12 +428,19 @@ Definition page_of_heap (h : heap) (p : page) : bool :=
 Definition heap_abandon_pages (st : state) (h : heap) : state :=
   let on_seg (s : segment) : option segment :=
     let pages := flat_map (fun p => if page_of_heap h p
-                                    then (if p_used p then [mkPage None (p_tag p) true] else [])
+                                    then (if p_used p then [mkPage None (p_tag p) true (p_slices p)] else [])
                                     else [p]) (s_pages s) in
-    settle (set_pages s pages (s_free s)) in
+    settle (set_pages s pages (dead_slices (page_of_heap h) (s_pages s) ++ s_free s)) in
   set_segs st (flat_map (fun s => if existsb (page_of_heap h) (s_pages s)
                                   then match on_seg s with Some s' => [s'] | None => [] end
                                   else [s]) (st_segs st)).
+
+(* the test of mi_heap_delete: the pages go to the backing heap *)
+Definition heap_absorbs (st : state) (h : heap) : bool :=
+  match heap_backing st (h_thread h) with
+  | Some b => negb (heap_eqb b h) && heaps_are_compatible b h
+  | None => false
+  end.
 
 (* mi_heap_delete *)
 Definition heap_delete (st : state) (h : heap) : state :=
@@ -426,7 +449,7 @@ Definition heap_delete (st : state) (h : heap) : state :=
     | Some b =>
       if negb (heap_eqb b h) && heaps_are_compatible b h then
         (* mi_heap_absorb(bheap, heap): the pages get the backing heap *)
-        set_segs st (map (fun s => set_pages s (map (fun p => if page_of_heap h p then mkPage (Some b) (p_tag p) (p_used p) else p)
+        set_segs st (map (fun s => set_pages s (map (fun p => if page_of_heap h p then mkPage (Some b) (p_tag p) (p_used p) (p_slices p) else p)
                                                      (s_pages s)) (s_free s)) (st_segs st))
       else heap_abandon_pages st h
     | None => heap_abandon_pages st h
@@ -458,7 +481,7 @@ Definition span_reuse (st : state) (h : heap) (need sid k : N) : state :=
   match span_test st h need sid k with
   | Some (s, n) =>
     update_seg st sid (fun s =>
-      Some (set_pages s (s_pages s ++ [mkPage (Some h) (h_tag h) true])
+      Some (set_pages s (s_pages s ++ [mkPage (Some h) (h_tag h) true need])
                       (replace_nth (s_free s) k (if need <? n then Some (n - need) else None))))   (* mi_segment_slice_split *)
   | None => st
   end.
@@ -473,21 +496,33 @@ Definition segment_alloc (st : state) (opts : alloc_opts) (h : heap) (huge : boo
   | RNull => (mkState ars (st_heaps st) (st_segs st) (st_next st), RNull)
   | _ =>
     let s := mkSeg (st_next st) (result_memid r) (result_addr r) size (h_thread h) 0 huge
-                   (if huge then [mkPage (Some h) (h_tag h) true] else [])
+                   (if huge then [mkPage (Some h) (h_tag h) true slices] else [])
                    (if huge then [] else [slices]) in
     (mkState ars (st_heaps st) (s :: st_segs st) (st_next st + 1), r)
   end.
 
-(* _mi_segment_page_free of the k-th page of an owned segment; n = slices of the coalesced free span *)
+(* _mi_segment_page_free of the k-th page of an owned segment: its slices become a free span (the
+   coalescing with the neighbour spans is OCoalesce) *)
 Fixpoint remove_nth {A : Type} (l : list A) (k : N) : list A :=
   match l with [] => [] | x :: t => if k =? 0 then t else x :: remove_nth t (k - 1) end.
-Definition page_free (st : state) (sid k n : N) : state :=
+Definition page_free (st : state) (sid k : N) : state :=
   update_seg st sid (fun s =>
     if s_owner s =? 0 then Some s
     else match nthN (s_pages s) k with
-         | Some _ => settle (set_pages s (remove_nth (s_pages s) k) (n :: s_free s))
+         | Some p => settle (set_pages s (remove_nth (s_pages s) k) (p_slices p :: s_free s))
          | None => Some s
          end).
+
+(* mi_segment_span_free_coalesce: two free spans of a segment that are neighbours become one *)
+Definition coalesce (st : state) (sid i j : N) : state :=
+  update_seg st sid (fun s =>
+    match nthN (s_free s) i, nthN (s_free s) j with
+    | Some a, Some b =>
+      if i =? j then Some s
+      else Some (set_pages s (s_pages s)
+                   ((a + b) :: remove_nth (remove_nth (s_free s) (N.max i j)) (N.min i j)))
+    | _, _ => Some s
+    end).
 
 (* _mi_segment_page_abandon of the k-th page (heap := NULL before the call, _mi_page_abandon) *)
 Fixpoint map_nth {A : Type} (l : list A) (k : N) (f : A -> A) : list A :=
@@ -495,17 +530,25 @@ Fixpoint map_nth {A : Type} (l : list A) (k : N) (f : A -> A) : list A :=
 Definition page_abandon (st : state) (sid k : N) : state :=
   update_seg st sid (fun s =>
     if s_owner s =? 0 then Some s
-    else settle (set_pages s (map_nth (s_pages s) k (fun p => mkPage None (p_tag p) (p_used p))) (s_free s))).
+    else settle (set_pages s (map_nth (s_pages s) k (fun p => mkPage None (p_tag p) (p_used p) (p_slices p))) (s_free s))).
 
 (* mi_segment_force_abandon: every page of the owned segment is abandoned (or freed when empty) *)
 Definition abandon (st : state) (sid : N) : state :=
   update_seg st sid (fun s =>
     if s_owner s =? 0 then Some s
-    else settle (set_pages s (flat_map (fun p => if p_used p then [mkPage None (p_tag p) true] else []) (s_pages s)) (s_free s))).
+    else settle (set_pages s (flat_map (fun p => if p_used p then [mkPage None (p_tag p) true (p_slices p)] else []) (s_pages s))
+                           (dead_slices (fun _ => true) (s_pages s) ++ s_free s))).
 
 (* the last live block of the k-th page is freed (by anybody): the page becomes all-free *)
 Definition block_free (st : state) (sid k : N) : state :=
-  update_seg st sid (fun s => Some (set_pages s (map_nth (s_pages s) k (fun p => mkPage (p_heap p) (p_tag p) false)) (s_free s))).
+  update_seg st sid (fun s => Some (set_pages s (map_nth (s_pages s) k (fun p => mkPage (p_heap p) (p_tag p) false (p_slices p))) (s_free s))).
+
+(* _mi_page_malloc from the k-th page of segment sid on behalf of heap h: a page of h that was all
+   free (retired, or kept as the only page of its queue) has a live block again *)
+Definition block_alloc (st : state) (h : heap) (sid k : N) : state :=
+  update_seg st sid (fun s =>
+    Some (set_pages s (map_nth (s_pages s) k (fun p => if page_of_heap h p then mkPage (p_heap p) (p_tag p) true (p_slices p) else p))
+                    (s_free s))).
 
 (* _mi_thread_heap_done: non-backing heaps are deleted (absorbed or abandoned), then the backing heap
    is collected with MI_ABANDON: every page of a heap of the thread is freed or abandoned *)
@@ -513,8 +556,8 @@ Definition thread_done (st : state) (tid : N) : state :=
   let mine (p : page) := match p_heap p with Some c => h_thread c =? tid | None => false end in
   let on_seg (s : segment) : list segment :=
     if s_owner s =? tid then
-      match settle (set_pages s (flat_map (fun p => if mine p then (if p_used p then [mkPage None (p_tag p) true] else []) else [p])
-                                          (s_pages s)) (s_free s)) with
+      match settle (set_pages s (flat_map (fun p => if mine p then (if p_used p then [mkPage None (p_tag p) true (p_slices p)] else []) else [p])
+                                          (s_pages s)) (dead_slices mine (s_pages s) ++ s_free s)) with
       | Some s' => [s'] | None => []
       end
     else [s] in
@@ -523,20 +566,21 @@ Definition thread_done (st : state) (tid : N) : state :=
 
 (* mi_segment_check_free on an abandoned segment in the visitor's hand: all-free pages are cleared *)
 Definition check_free_seg (s : segment) : segment :=
-  set_pages s (filter p_used (s_pages s)) (s_free s).
+  set_pages s (filter p_used (s_pages s)) (dead_slices (fun _ => true) (s_pages s) ++ s_free s).
 
 (* mi_segment_reclaim(segment, heap): thread_id := heap's thread, abandoned_visits := 0; every used
-   page goes to `_mi_heap_by_tag(heap, page->heap_tag)` (or `heap` when there is none); all-free pages
-   are cleared; used == 0 afterwards: mi_segment_free *)
+   page goes to `_mi_heap_by_tag(heap, page->heap_tag)` (or `heap` when there is none) and
+   mi_page_set_heap gives it the tag of that heap; all-free pages are cleared; used == 0 afterwards:
+   mi_segment_free *)
 Definition reclaim_page (heaps : list heap) (h : heap) (p : page) : list page :=
   if p_used p then
     let target := match heap_by_tag heaps h (p_tag p) with Some t => t | None => h end in
-    [mkPage (Some target) (p_tag p) true]
+    [mkPage (Some target) (h_tag target) true (p_slices p)]
   else [].
 Definition reclaim_seg (heaps : list heap) (h : heap) (s : segment) : option segment :=
   match flat_map (reclaim_page heaps h) (s_pages s) with
   | [] => None
-  | pages => Some (set_owner (set_pages s pages (s_free s)) (h_thread h) 0)
+  | pages => Some (set_owner (set_pages s pages (dead_slices (fun _ => true) (s_pages s) ++ s_free s)) (h_thread h) 0)
   end.
 Definition reclaim (st : state) (h : heap) (sid : N) : state :=
   update_seg st sid (reclaim_seg (st_heaps st) h).
@@ -629,19 +673,21 @@ Fixpoint abandoned_collect (st : state) (h : heap) (visits : list N) : state :=
 Inductive op : Type :=
 | OManage (start size : N) (excl large : bool) (numa : Z)      (* mi_manage_os_memory_ex / mi_reserve_os_memory_ex *)
 | OHeapNew (tid : N) (arena_id : Z) (tag : N)                  (* thread init (first heap of tid) / mi_heap_new_ex *)
-| OHeapDelete (hid : N)
+| OHeapDelete (hid : N) (visits : list N)                       (* mi_heap_delete; visits: of the _mi_abandoned_collect in _mi_heap_collect_abandon *)
 | OSpanReuse (hid need sid k : N)
 | OSegmentAlloc (opts : alloc_opts) (hid : N) (huge : bool) (size alignment align_offset slices : N)
                 (allow_large : bool) (o : alloc_oracle)
-| OPageFree (sid k n : N)
+| OPageFree (sid k : N)
 | OPageAbandon (sid k : N)
 | OAbandon (sid : N)
 | OBlockFree (sid k : N)
-| OThreadDone (tid : N)
+| OThreadDone (tid : N) (visits : list N)                       (* _mi_thread_heap_done; visits: of the _mi_abandoned_collect of the backing heap *)
 | OAttemptReclaim (hid sid : N) (heur won : bool)
 | OTryReclaim (hid : N) (visits : list (N * bool))
 | OReclaimAll (hid : N)
-| OCollect (hid : N) (visits : list N).
+| OCollect (hid : N) (visits : list N)
+| OCoalesce (sid i j : N)                                       (* mi_segment_span_free_coalesce *)
+| OBlockAlloc (hid sid k : N).                                  (* _mi_page_malloc from an all-free page *)
 
 Definition with_heap (st : state) (hid : N) (f : heap -> state) : state :=
   match find_heap st hid with Some h => f h | None => st end.
@@ -654,19 +700,30 @@ Definition step (st : state) (o : op) : state :=
     | None => st
     end
   | OHeapNew tid arena_id tag => if tid =? 0 then st else fst (heap_new st tid arena_id tag)
-  | OHeapDelete hid => with_heap st hid (heap_delete st)
+  | OHeapDelete hid visits =>
+    (* mi_heap_delete: absorb, or _mi_heap_collect_abandon = abandon the pages, then _mi_abandoned_collect with this heap's
+       cursor; then mi_heap_free (the collect does not look at the heap list) *)
+    with_heap st hid (fun h => if heap_absorbs st h then heap_delete st h else abandoned_collect (heap_delete st h) h visits)
   | OSpanReuse hid need sid k => with_heap st hid (fun h => span_reuse st h need sid k)
   | OSegmentAlloc opts hid huge size alignment align_offset slices allow_large o =>
     with_heap st hid (fun h => fst (segment_alloc st opts h huge size alignment align_offset slices allow_large o))
-  | OPageFree sid k n => page_free st sid k n
+  | OPageFree sid k => page_free st sid k
   | OPageAbandon sid k => page_abandon st sid k
   | OAbandon sid => abandon st sid
   | OBlockFree sid k => block_free st sid k
-  | OThreadDone tid => thread_done st tid
+  | OThreadDone tid visits =>
+    (* _mi_thread_heap_done: the last step is _mi_heap_collect_abandon(backing heap), whose _mi_abandoned_collect also sees
+       the segments this exit has just abandoned *)
+    match heap_backing st tid with
+    | Some b => abandoned_collect (thread_done st tid) b visits
+    | None => thread_done st tid
+    end
   | OAttemptReclaim hid sid heur won => with_heap st hid (fun h => attempt_reclaim st h sid heur won)
   | OTryReclaim hid visits => with_heap st hid (fun h => try_reclaim st h visits)
   | OReclaimAll hid => with_heap st hid (reclaim_all st)
   | OCollect hid visits => with_heap st hid (fun h => abandoned_collect st h visits)
+  | OCoalesce sid i j => coalesce st sid i j
+  | OBlockAlloc hid sid k => with_heap st hid (fun h => block_alloc st h sid k)
   end.
 
 Definition run (st : state) (ops : list op) : state := fold_left step ops st.
@@ -697,6 +754,10 @@ Definition seg_placed (arenas : list arena) (s : segment) : bool :=
   end.
 Definition placed_inv_b (st : state) : bool := forallb (seg_placed (st_arenas st)) (st_segs st).
 
+(* slice accounting of a segment: what its pages and free spans add up to *)
+Fixpoint sumN (l : list N) : N := match l with [] => 0 | x :: t => x + sumN t end.
+Definition seg_slices (s : segment) : N := sumN (map p_slices (s_pages s)) + sumN (s_free s).
+
 (* every heap and page carries tag 0: what thread init, mi_heap_new and mi_heap_new_in_arena produce *)
 Definition tags_uniform_b (st : state) : bool :=
   forallb (fun h => h_tag h =? 0) (st_heaps st) &&
@@ -711,3 +772,12 @@ Definition exclusive_leak_b (st : state) (aid : Z) : bool :=
                         existsb (fun p => match p_heap p with Some h => negb (h_arena h =? aid)%Z | None => false end) (s_pages s)
                     | _ => false
                     end) (st_segs st).
+
+(* tag_safe of the adopting heap, as a boolean (for the trace replay): the heaps _mi_heap_by_tag can
+   reach from h are the heaps of h's thread *)
+Definition tag_safe_b (heaps : list heap) (h : heap) : bool :=
+  forallb (fun c => negb (h_thread c =? h_thread h) || (h_arena c =? h_arena h)%Z ||
+                    match heap_by_tag heaps h (h_tag c) with
+                    | Some t => (h_arena t =? h_arena h)%Z
+                    | None => true
+                    end) heaps.
